@@ -42,7 +42,11 @@ NoMap == [t \in Tasks |-> EmptyD]
 
 Contents == 0..(Prog.ncontents - 1)
 ReqSets  == {Prog.reqsets[i] : i \in DOMAIN Prog.reqsets}
-FailSets == {Prog.failsets[i] : i \in DOMAIN Prog.failsets}
+\* a failing list names tasks whose first command exits non-zero, and -- as "!T", see Prog.errpairs -- tasks whose first command
+\* cannot be run at all: the runner returns an error instead of an exit status and spok stops with it
+FailSets == {Prog.failsets[i] : i \in DOMAIN Prog.failsets} \cup {Prog.errfail[i] : i \in DOMAIN Prog.errfail}
+ErrPairs == {Prog.errpairs[i] : i \in DOMAIN Prog.errpairs}          \* <<"!T", "T">>
+ErrTasks(i) == {p[2] : p \in {q \in ErrPairs : q[1] \in SeqRange(i.failing)}}
 
 \* run orders: every dependency-respecting permutation of the closure (the topological sort iterates a Go map)
 IsTopo(o) == \A i \in DOMAIN o : \A d \in TaskDeps(o[i]) : \E j \in 1..(i - 1) : o[j] = d
@@ -139,10 +143,14 @@ Exec ==
   /\ inv.pc = "exec"
   /\ LET t == Cur
          ok == t \notin SeqRange(inv.failing) IN
-     inv' = [inv EXCEPT !.pc = "persist",
-                        !.ran = Append(@, [t |-> t, n |-> NCmds, ok |-> ok]),
-                        !.reports = Append(@, [t |-> t, skipped |-> FALSE, nres |-> NCmds])]
-  /\ Keep /\ UNCHANGED disk
+     IF t \in ErrTasks(inv)
+     THEN \* the runner cannot run the first command: Run returns the error at once, nothing more is written
+          /\ End("error", "runner", FALSE, [inv EXCEPT !.ran = Append(@, [t |-> t, n |-> 1, ok |-> FALSE])])
+          /\ UNCHANGED disk
+     ELSE /\ inv' = [inv EXCEPT !.pc = "persist",
+                             !.ran = Append(@, [t |-> t, n |-> NCmds, ok |-> ok]),
+                             !.reports = Append(@, [t |-> t, skipped |-> FALSE, nres |-> NCmds])]
+          /\ Keep /\ UNCHANGED disk
 
 \* wal: record the new digest as soon as the task has succeeded (one write of the cache file)
 Persist ==
